@@ -16,7 +16,8 @@ LEAN = os.path.join(VERIF, "lean")
 EXEC = os.path.join(VERIF, "exec")
 OUT = os.path.join(VERIF, "out")
 EVID = os.path.join(VERIF, "evidence")
-REPO = "/repo"
+REPO = os.environ.get("CV_REPO", "/repo")   # CV_REPO: run the same machinery against a scratch worktree (seed testing)
+ALT = REPO != "/repo"
 ALLOWED_AXIOMS = {"propext", "Classical.choice", "Quot.sound"}
 FORBIDDEN_RE = re.compile(
     r"\b(sorry|admit|native_decide|bv_decide|implemented_by)\b|^\s*axiom\s|\bunsafe\s|maxHeartbeats\s+0\b",
